@@ -107,6 +107,113 @@ theorem quotientOp_agree (desc : FieldDesc) {stq : St α × Option (List (BPoly 
   · exact quotientGens_V h _ (iGet_ok hs n)
   · exact hq
 
+
+/-- `qK=embed@3 src:r` into the ring remembered by the last `quotient` (valid generators `gs`) -/
+theorem embedQOp_agree {st : St α} (hs : StoreOK4 V st) {gs : List (BPoly α)}
+    (hgs : B.AllMM (V 0) gs) (dst src : Nat) (reduce : Bool) :
+    embedQOp env' st gs dst src reduce = embedQOp env st gs dst src reduce ∧
+      StoreOK4 V (embedQOp env st gs dst src reduce).1 := by
+  have A := h.u.base.agree 0
+  have C := h.u.base.closed 0
+  have ha := bGet_ok hs.1 src
+  have hR : B.BRingOK (env.fld 0) (V 0) ({ bring env 0 with ideal := some gs } : BPoly.Ring α) :=
+    ⟨(h.bringOK 0).hF, fun l hl => by cases hl; exact hgs⟩
+  have hR' : ({ bring env' 0 with ideal := some gs } : BPoly.Ring α)
+      = B.withFB { bring env 0 with ideal := some gs } (env'.fld 0) := by
+    unfold bring; rw [h.bring']; rfl
+  obtain ⟨e, hv⟩ := B.reduceIn_par A C hR ha
+  unfold embedQOp
+  dsimp only
+  rw [hR', e]
+  split
+  · exact ⟨rfl, hs⟩
+  · have hv' : B.OptM (V 0) (if reduce = true
+        then BPoly.reduceIn { bring env 0 with ideal := some gs } (bGet st src).val
+        else some (bGet st src).val) := by
+      split
+      · exact hv
+      · exact fun v hv => by cases hv; exact ha
+    generalize (if reduce = true
+        then BPoly.reduceIn { bring env 0 with ideal := some gs } (bGet st src).val
+        else some (bGet st src).val) = res at hv' ⊢
+    cases res with
+    | none => exact ⟨rfl, hs⟩
+    | some v =>
+      obtain ⟨e2, hv2⟩ := putB h hs.1 dst (r := { home := 3, val := v, err := (bGet st src).err })
+        rfl (hv' v rfl) "ok "
+      exact ⟨e2, hv2, hs.2⟩
+
+theorem uRingExists_eq (i : Nat) : uRingExists env' i = uRingExists env i := by
+  unfold uRingExists uring; rw [h.u.ring', h.u.ring']; rfl
+
+/-- `uquot@k j:gens` (generators with valid coefficients) -/
+theorem uquotOp_agree (st : St α) (k j : Nat) {gens : List (UPoly α)} (hg : AllVV (V 0) gens) :
+    uquotOp env' st k j gens = uquotOp env st k j gens := by
+  have A : OpsAgree (F0 env) (F0 env') (V 0) := h.u.base.agree 0
+  have C : Closed (F0 env) (V 0) := h.u.base.closed 0
+  unfold uquotOp
+  rw [uRingExists_eq h, uRingExists_eq h, (newIdeal_par A C hg).1]
+  simp only [isZero_congr A]
+
+/-- `uireduce j:gens pK` -/
+theorem uireduceOp_agree {st : St α} (hs : StoreOK4 V st) (j : Nat) {gens : List (UPoly α)}
+    (hg : AllVV (V 0) gens) (k : Nat) :
+    uireduceOp env' st j gens k = uireduceOp env st j gens k ∧
+      StoreOK4 V (uireduceOp env st j gens k).1 := by
+  have A : OpsAgree (F0 env) (F0 env') (V 0) := h.u.base.agree 0
+  have C : Closed (F0 env) (V 0) := h.u.base.closed 0
+  have hp := uGet_ok h.u hs.1.1 k
+  obtain ⟨e, hv⟩ := newIdeal_par A C hg
+  unfold uireduceOp
+  dsimp only
+  rw [uGet_eq h.u, e]
+  cases hn : UPoly.newIdeal (F0 env) gens with
+  | none => exact ⟨rfl, hs⟩
+  | some g =>
+    obtain ⟨e2, hv2⟩ := reduce_par A C (hv g hn) hp
+    dsimp only
+    rw [isZero_congr A, e2]
+    split_ifs with c1 c2 c3
+    · exact ⟨rfl, hs⟩
+    · exact ⟨rfl, hs⟩
+    · exact ⟨rfl, hs⟩
+    · cases hr : UPoly.reduce (F0 env) g (uGet env st k).val with
+      | none => exact ⟨rfl, hs⟩
+      | some v =>
+        obtain ⟨e3, hv3⟩ := putU h.u hs.1.1 k (r := { (uGet env st k) with val := v }) rfl
+          (hv2 v hr) "ok "
+        exact ⟨e3, ⟨hv3, hs.1.2⟩, hs.2⟩
+
+/-- `qK=spoly qA qB` -/
+theorem spolyOp_agree {st : St α} (hs : StoreOK4 V st) (dst a b : Nat) :
+    spolyOp env' st dst a b = spolyOp env st dst a b ∧ StoreOK4 V (spolyOp env st dst a b).1 := by
+  have A := h.u.base.agree 0
+  have C := h.u.base.closed 0
+  have ha := bGet_ok hs.1 a
+  have hb := bGet_ok hs.1 b
+  obtain ⟨e, hv⟩ := B.sPoly_par A C (bord env (bGet st a).home) ha hb
+  unfold spolyOp
+  simp only [F0, bord_eq h, bring]
+  rw [e, h.bring']
+  cases hc : bCheck (bGet st a) [bGet st b] with
+  | some rb => exact ⟨rfl, hs⟩
+  | none =>
+    dsimp only
+    split_ifs with c1
+    · exact ⟨rfl, hs⟩
+    · cases hsp : BPoly.sPoly (env.fld 0) (bord env (bGet st a).home) (bGet st a).val (bGet st b).val with
+      | none => exact ⟨rfl, hs⟩
+      | some sp =>
+        obtain ⟨e2, hv2⟩ := B.reduceIn_par A C (h.bringOK (bGet st a).home) (hv sp hsp)
+        dsimp only
+        rw [e2]
+        cases hr : BPoly.reduceIn (env.bring (bGet st a).home) sp with
+        | none => exact ⟨rfl, hs⟩
+        | some v =>
+          obtain ⟨e3, hv3⟩ := putB h hs.1 dst (r := { home := (bGet st a).home, val := v }) rfl
+            (hv2 v hr) "ok "
+          exact ⟨e3, hv3, hs.2⟩
+
 end Extra
 end Tables
 end Algobra
